@@ -98,7 +98,7 @@ def body_messages(body: str, rid: Any) -> List[dict]:
 
 PREFIXES = ["none", "comment-block", "typed-event-without-data", "other-typed-event", "retry-only-block"]
 HEADERS = ["event-message", "no-event-field", "event-no-space", "id-retry-fields"]
-DATAFORMS = ["data-space", "data-no-space", "multi-data"]
+DATAFORMS = ["data-space", "data-no-space", "multi-data", "data-two-spaces", "data-tab", "data-empty-first-line"]
 EOLS = ["lf", "crlf"]
 
 
@@ -132,6 +132,12 @@ def _one_event(data: str, enc: str) -> str:
         out += f"data: {data}\n"
     elif d == "data-no-space":
         out += f"data:{data}\n"
+    elif d == "data-two-spaces":
+        out += f"data:  {data}\n"
+    elif d == "data-tab":
+        out += f"data:\t{data}\n"
+    elif d == "data-empty-first-line":
+        out += f"data:\ndata: {data}\n"
     else:
         cut = data.index(",") + 1
         out += f"data: {data[:cut]}\ndata: {data[cut:]}\n"
@@ -158,7 +164,7 @@ def sse_encode(msgs: List[dict], enc: str, as_batch: bool) -> str:
 
 def behaviours() -> List[Dict[str, Any]]:
     bs: List[Dict[str, Any]] = []
-    for exc in ("connect", "read-timeout", "protocol"):
+    for exc in ("connect", "read-timeout", "protocol", "stall"):
         bs.append({"exc": exc})
     for status in (200, 202):
         for body in ("resp", "err", "batch", "wrong-id", "empty", "truncated", "nonjson", "nonutf8"):
@@ -263,6 +269,10 @@ def run_one(ctl: explorer.Ctl, cfg: Dict[str, Any]) -> Dict[str, Any]:
             return httpx.Response(500, content=b"unexpected request")
         s = steps[i]
         b = beh(s)
+        if b.get("exc") == "stall":
+            # the server accepts the request and then goes silent: httpx's own read timeout (taken from the
+            # request, exactly as httpcore would) is what ends the wait - or nothing, if the client disabled it
+            return _stall(rec)
         if "exc" in b:
             return {"connect": httpx.ConnectError("connection refused"),
                     "read-timeout": httpx.ReadTimeout("timed out"),
@@ -281,6 +291,14 @@ def run_one(ctl: explorer.Ctl, cfg: Dict[str, Any]) -> Dict[str, Any]:
             raw = b""
         return httpx.Response(status, headers=headers, content=raw)
 
+    async def _stall(rec):
+        import asyncio as _a
+        rt = (rec.timeout or {}).get("read")
+        if rt is None:
+            await _a.get_running_loop().create_future()  # never
+        await _a.sleep(rt)
+        return httpx.ReadTimeout("timed out")
+
     got_per_step: List[List[Any]] = []
     info: Dict[str, Any] = {}
 
@@ -296,6 +314,11 @@ def run_one(ctl: explorer.Ctl, cfg: Dict[str, Any]) -> Dict[str, Any]:
                         msg = JSONRPCRequest(id=rids[n], method="tools/list", params={"n": n})
                     await write.send(msg)
                     await q.settle()
+                    if beh(s).get("exc") == "stall":
+                        # let (virtual) time pass beyond the transport's configured timeout
+                        import asyncio as _a
+                        await _a.sleep(6.0)
+                        await q.settle()
                     got = []
                     try:
                         while True:
